@@ -1463,6 +1463,14 @@ func (sc *SCtx) defineCall(d *Define, argEs []Expr) (Val, error) {
 	sub.lookup = nil
 	sub.useParams = false
 	sub.depth = sc.depth + 1
+	if d.Pkg != "" {
+		// names inside the macro resolve in the package that states it
+		for _, pk := range sc.g.P.Pkgs {
+			if pk.PkgPath == d.Pkg && pk.Types != nil {
+				sub.pkg = pk.Types
+			}
+		}
+	}
 	v, err := sub.eval(d.Body)
 	sc.bound = saved
 	if err != nil {
